@@ -787,9 +787,16 @@ fn level_b_sets(thorough: bool) -> Vec<Vec<Member>> {
 
 /// Level A family: every set over the whole pool (sizes 1..=5) and the whole stake alphabet
 fn level_a_sets(thorough: bool) -> Vec<Vec<Member>> {
-    let alphabet: &[u64] = if thorough { &STAKES } else { &STAKES[..4] };
     let mut out = vec![];
     for members in subsets_of_pool(1, POOL) {
+        // quick: {1,2,3,10} up to three members, {1,2,3} for four and five
+        let alphabet: &[u64] = if thorough {
+            &STAKES
+        } else if members.len() <= 3 {
+            &STAKES[..4]
+        } else {
+            &STAKES[..3]
+        };
         out.extend(with_stakes(&members, &words(alphabet, members.len())));
     }
     out.sort_by_key(|s| s.len());
@@ -883,7 +890,7 @@ pub fn run(ctx: &Ctx) -> ! {
          message - with the inputs in memory and after every transport encoding; each evaluation yields key bytes, json-hex \
          text, total stake and every member's signer slot (read from a signature it makes), all of which must be identical \
          inside a set, and every signature must be accepted by the aggregator built in another order; then one key per set of \
-         the whole lattice (all subsets of sizes 1-5 x all stake words over {1,2,3,10}, thorough {1,2,3,10,2^53+1}) is computed \
+         the whole lattice (all subsets of sizes 1-5 x all stake words over {1,2,3,10} for N<=3 and {1,2,3} for N>=4; thorough: over {1,2,3,10,2^53+1} for every N) is computed \
          on two routes in opposite orders and all keys must be pairwise distinct. A case (set, order, route, encoding) is \
          non-trivial when the registration closed, a key came out and - on the signing routes - every member obtained a \
          signature carrying its slot; distinct = distinct (set, order, route, encoding)",
